@@ -82,8 +82,16 @@ def _compare(ctx, track, model, where):
     if not ctx.check(items == model.accepted, "iteration/items",
                      lambda: "%s: track yields %r, accepted %r" % (where, items[-4:], model.accepted[-4:])):
         return False
-    ctx.check(len(track) == len(model.bars) and len(track.bars) == len(model.bars), "bars/count",
-              lambda: "%s: %d bars, model %d" % (where, len(track.bars), len(model.bars)))
+    # an empty bar at the end (opened for an item that was then refused) may or may not be kept: "a rejected item changes
+    # nothing" and "a new bar is opened when the last one is full" are both satisfied either way; bars that hold entries count
+    def used(n_entries):
+        k = len(n_entries)
+        while k and n_entries[k - 1] == 0:
+            k -= 1
+        return k
+    lib_used = used([len(b.bar) for b in track.bars])
+    ctx.check(len(track) == len(track.bars) and lib_used == used([len(bm.entries) for bm, _ in model.bars]) and len(track.bars) <= max(len(model.bars), lib_used),
+              "bars/count", lambda: "%s: %d bars (%d up to the last one with entries), model %d" % (where, len(track.bars), lib_used, len(model.bars)))
     total = Fr(0)
     for i, (bm, key) in enumerate(model.bars):
         if i >= len(track.bars):
